@@ -162,6 +162,18 @@ def uniform_scale(F, ob, cfg):
     k0 = F.real("k0", 0.05, 4)
     al2 = AlignmentUniformScale(S, PointCloud(s * k0, copy=False))
     ob.eq("recover", al2.h_matrix[0, 0], k0)
+    # the same clauses for the alignment handed out by pseudoinverse() once it has been given a target of its own
+    F.assume((tc * tc).sum() >= 0.05)
+    inv = al.pseudoinverse()
+    u = F.reals("u", (pts, n), -4, 4)
+    U = PointCloud(u, copy=False)
+    inv.set_target(U)
+    ki = inv.h_matrix[0, 0]
+    uc = u - U.centre()
+    ob.eq("pinv.retargeted.size^2", ki * ki * (tc * tc).sum(), (uc * uc).sum())
+    ob.true("pinv.retargeted.scale>=0", ki >= 0)
+    K.honest(F, ob, "pinv.retargeted.honest", inv)
+    _common(F, ob, inv, pts)
 
 
 def rotation2d(F, ob, cfg):
